@@ -400,7 +400,11 @@ class Ctx:
                             "not found in audit output: " + raw[-400:])
         self.extra.setdefault("theorems", []).extend(
             {"name": t, "axioms": res.get(t)} for t in thms)
-        return allok
+        # independent re-check of the compiled property module (and what it imports from this
+        # project) with the toolchain's external checker
+        rc, outc = _run(["lake", "env", "leanchecker", module], cwd=LEAN, timeout=1800)
+        self.obligation(f"leanchecker {module}", "leanchecker", rc == 0, outc[-600:])
+        return allok and rc == 0
 
     def correspond(self, name, reqs, impl):
         """Compare implementation answers with the Lean model's answers to the
